@@ -87,6 +87,15 @@ MODULES["sparse"] = {
     "files": ["L_sparse.v"], "deps": ["model/M_sparse.v"],
 }
 
+# init_update (umap_.py, C11): an in-place update of the rows n_original_samples.. of a 2-d float array that reads the rows below
+# n_original_samples of the same array; `indices` is a 2-d int array (MZ).  Its own module (generated file Src_umap_update.v) so
+# that the cache keys of umap_sup stay untouched.
+MODULES["umap_update"] = {
+    "path": "umap/umap_.py", "functions": ["init_update"],
+    "sigs": {"init_update": {"args": {"current_init": M, "n_original_samples": I, "indices": MZ}}},
+    "files": ["L_update.v"], "deps": ["thm/T_link_arr.v", "thm/T_link_mat.v", "model/M_update.v"],
+}
+
 
 def _sha(*parts):
     h = hashlib.sha256()
@@ -107,7 +116,7 @@ def _coqc(path, d, timeout):
         return False, "", "TIMEOUT after %ds" % timeout, time.time() - t0
 
 
-def prune(keep=8):
+def prune(keep=40):
     """drop the oldest cache directories"""
     try:
         ds = sorted((os.path.join(CACHE, d) for d in os.listdir(CACHE)), key=os.path.getmtime)
